@@ -25,7 +25,7 @@ pub fn run(ctx: &Ctx) -> Report {
     let cases = ctx.pick(400_000u32, 12_000_000u32) / ctx.shards as u32;
     let seed = ctx.seed;
     par_shards(ctx.shards, rep, move |shard, r| {
-        let cfg = DiffCfg { prop: "C01", driver: "random-general", profile: Profile::general(), cases, max_len: 600, seed: seed.wrapping_mul(7919) + shard as u64 };
+        let cfg = DiffCfg { prop: "C01", driver: "random-general", profile: Profile::general(), cases, max_len: 600, seed: seed.wrapping_mul(7919) + shard as u64, layout: true };
         run_diff_tapes(r, &cfg, &nontrivial, &known);
     })
 }
